@@ -8,6 +8,8 @@ import Mathlib.Order.Bounds.Basic
 import Mathlib.Algebra.Order.Field.Rat
 import Mathlib.Tactic.Linarith
 
+set_option linter.unusedSectionVars false
+
 namespace Rtamt.Dense
 open Rtamt Val
 
@@ -43,16 +45,311 @@ theorem StepOn.mono_lo {g : Rat → Option α} {B : List Rat} {lo lo' : Rat} {hi
     (h : StepOn g B lo hi) (hlo : lo ≤ lo') : StepOn g B lo' hi :=
   h.mono hlo (fun _ h => h) (fun _ h => h)
 
-theorem StepOn.to_some {g : Rat → Option α} {B : List Rat} {lo : Rat} {hi : Option Rat}
-    (h : StepOn g B lo hi) (h' : Rat) : StepOn g B lo (some h') :=
-  match hi with
-  | none => h.mono le_rfl (fun _ _ => trivial) (fun _ h => h)
-  | some x => by
-      -- only used with `hi = none`; for `some x` we need `h' ≤ x`, so restrict to `none`
-      exact ⟨fun s h1 h2 => by
-        rcases le_total s x with hx | hx
-        · exact h.1 s h1 hx
-        · exact h.1 s h1 hx |> fun _ => by
-            exact (h.1 s h1 (by exact absurd hx (by intro; exact (lt_irrefl _ (lt_of_le_of_lt ‹_› (by sorry)))))) , sorry⟩
+/-- restriction of an unbounded step function to a bounded window -/
+theorem StepOn.restrict {g : Rat → Option α} {B : List Rat} {lo lo' : Rat}
+    (h : StepOn g B lo none) (hlo : lo ≤ lo') (hi : Option Rat) : StepOn g B lo' hi :=
+  h.mono hlo (fun _ _ => trivial) (fun _ h => h)
+
+theorem StepOn.congr {g g' : Rat → Option α} {B : List Rat} {lo : Rat} {hi : Option Rat}
+    (h : StepOn g B lo hi) (he : ∀ s, lo ≤ s → leHi s hi → g' s = g s) : StepOn g' B lo hi := by
+  refine ⟨fun s h1 h2 => by rw [he s h1 h2]; exact h.1 s h1 h2, fun s s' h1 h2 h3 h4 => ?_⟩
+  rw [he s' (le_trans h1 h2) h3, he s h1 (leHi_mono h2 h3)]
+  exact h.2 s s' h1 h2 h3 h4
+
+/-! ### `foldWin` -/
+
+/-- the points `foldWin` reads -/
+def winPts (B : List Rat) (lo : Rat) (hi : Option Rat) : List Rat :=
+  lo :: B.filter (fun τ => decide (lo < τ) &&
+        (match hi with | some h => decide (τ ≤ h) | none => true))
+
+theorem foldWin_eq (f : α → α → α) (init : α) (g : Rat → Option α) (B : List Rat) (lo : Rat)
+    (hi : Option Rat) :
+    foldWin f init g B lo hi
+      = (winPts B lo hi).foldlM (fun acc τ => (g τ).map (fun v => f acc v)) init := rfl
+
+theorem mem_winPts {B : List Rat} {lo : Rat} {hi : Option Rat} {τ : Rat} :
+    τ ∈ winPts B lo hi ↔ τ = lo ∨ (τ ∈ B ∧ lo < τ ∧ leHi τ hi) := by
+  unfold winPts
+  cases hi <;> simp [leHi]
+
+theorem foldlM_all_some (f : α → α → α) (g : Rat → Option α) (pts : List Rat) (init : α)
+    (h : ∀ τ ∈ pts, (g τ).isSome = true) :
+    pts.foldlM (fun acc τ => (g τ).map (fun v => f acc v)) init
+      = some ((pts.filterMap g).foldl f init) := by
+  induction pts generalizing init with
+  | nil => rfl
+  | cons τ pts ih =>
+    obtain ⟨y, hy⟩ := Option.isSome_iff_exists.1 (h τ (List.mem_cons_self ..))
+    have ih' := ih (f init y) (fun τ' h' => h τ' (List.mem_cons_of_mem _ h'))
+    simp only [List.foldlM_cons, hy, Option.map_some, List.filterMap_cons, List.foldl_cons]
+    simpa using ih'
+
+theorem foldlM_congr_mem (f : α → α → α) (g g' : Rat → Option α) (pts : List Rat) (init : α)
+    (h : ∀ τ ∈ pts, g τ = g' τ) :
+    pts.foldlM (fun acc τ => (g τ).map (fun v => f acc v)) init
+      = pts.foldlM (fun acc τ => (g' τ).map (fun v => f acc v)) init := by
+  induction pts generalizing init with
+  | nil => rfl
+  | cons τ pts ih =>
+    simp only [List.foldlM_cons, h τ (List.mem_cons_self ..)]
+    congr 1
+    funext b
+    exact ih b (fun τ' h' => h τ' (List.mem_cons_of_mem _ h'))
+
+/-- `foldWin` only reads `g` on the window. -/
+theorem foldWin_congr (f : α → α → α) (init : α) (g g' : Rat → Option α) (B : List Rat) (lo : Rat)
+    (hi : Option Rat) (hne : leHi lo hi) (h : ∀ s, lo ≤ s → leHi s hi → g s = g' s) :
+    foldWin f init g B lo hi = foldWin f init g' B lo hi := by
+  rw [foldWin_eq, foldWin_eq]
+  apply foldlM_congr_mem
+  intro τ hτ
+  rcases mem_winPts.1 hτ with rfl | ⟨_, h1, h2⟩
+  · exact h _ le_rfl hne
+  · exact h _ (le_of_lt h1) h2
+
+/-- The last candidate at or before `s` (or `lo` itself). -/
+theorem exists_last_bp (B : List Rat) (lo s : Rat) (h : lo ≤ s) :
+    ∃ τ, (τ = lo ∨ (τ ∈ B ∧ lo < τ)) ∧ lo ≤ τ ∧ τ ≤ s ∧ ∀ b ∈ B, ¬ (τ < b ∧ b ≤ s) := by
+  induction B with
+  | nil => exact ⟨lo, Or.inl rfl, le_rfl, h, by simp⟩
+  | cons b B ih =>
+    obtain ⟨τ, h1, h2, h3, h4⟩ := ih
+    by_cases hb : τ < b ∧ b ≤ s
+    · refine ⟨b, Or.inr ⟨List.mem_cons_self .., lt_of_le_of_lt h2 hb.1⟩, le_trans h2 (le_of_lt hb.1),
+        hb.2, ?_⟩
+      intro b' hb'
+      rcases List.mem_cons.1 hb' with rfl | hb'
+      · exact fun h => lt_irrefl _ h.1
+      · exact fun h => h4 b' hb' ⟨lt_trans hb.1 h.1, h.2⟩
+    · refine ⟨τ, ?_, h2, h3, ?_⟩
+      · rcases h1 with h1 | h1
+        · exact Or.inl h1
+        · exact Or.inr ⟨List.mem_cons_of_mem _ h1.1, h1.2⟩
+      · intro b' hb'
+        rcases List.mem_cons.1 hb' with rfl | hb'
+        · exact hb
+        · exact h4 b' hb'
+
+variable [LawfulVal α]
+
+/-- every value on the window is the value at one of the points `foldWin` reads -/
+theorem winSet_subset_read {g : Rat → Option α} {B : List Rat} {lo : Rat} {hi : Option Rat}
+    (hg : StepOn g B lo hi) {y : α} (hy : y ∈ winSet g lo hi) :
+    y ∈ (winPts B lo hi).filterMap g := by
+  obtain ⟨s, h1, h2, h3⟩ := hy
+  obtain ⟨τ, k1, k2, k3, k4⟩ := exists_last_bp B lo s h1
+  have hgs : g s = g τ := hg.2 τ s k2 k3 h2 k4
+  rw [List.mem_filterMap]
+  refine ⟨τ, mem_winPts.2 ?_, by rw [← hgs]; exact h3⟩
+  rcases k1 with rfl | k1
+  · exact Or.inl rfl
+  · exact Or.inr ⟨k1.1, k1.2, leHi_mono k3 h2⟩
+
+theorem read_subset_winSet {g : Rat → Option α} {B : List Rat} {lo : Rat} {hi : Option Rat}
+    (hne : leHi lo hi) {y : α}
+    (hy : y ∈ (winPts B lo hi).filterMap g) :
+    y ∈ winSet g lo hi := by
+  rw [List.mem_filterMap] at hy
+  obtain ⟨τ, hτ, hy⟩ := hy
+  rcases mem_winPts.1 hτ with rfl | ⟨_, h1, h2⟩
+  · exact ⟨_, le_rfl, hne, hy⟩
+  · exact ⟨τ, le_of_lt h1, h2, hy⟩
+
+theorem foldWin_some {f : α → α → α} {init : α} {g : Rat → Option α} {B : List Rat} {lo : Rat}
+    {hi : Option Rat} (hg : StepOn g B lo hi) (hne : leHi lo hi) :
+    foldWin f init g B lo hi = some (((winPts B lo hi).filterMap g).foldl f init) := by
+  rw [foldWin_eq]
+  apply foldlM_all_some
+  intro τ hτ
+  rcases mem_winPts.1 hτ with rfl | ⟨_, h1, h2⟩
+  · exact hg.1 _ le_rfl hne
+  · exact hg.1 _ (le_of_lt h1) h2
+
+theorem foldWin_max_spec {g : Rat → Option α} {B : List Rat} {lo : Rat} {hi : Option Rat}
+    (hg : StepOn g B lo hi) (hne : leHi lo hi) :
+    ∃ v, foldWin pmax ninf g B lo hi = some v ∧ IsLUB (winSet g lo hi) v := by
+  refine ⟨_, foldWin_some hg hne, ?_, ?_⟩
+  · intro y hy
+    exact ((lmaxFrom_le_iff ninf _ _).1 le_rfl).2 y (winSet_subset_read hg hy)
+  · intro c hc
+    refine (lmaxFrom_le_iff ninf _ c).2 ⟨by rw [LawfulVal.ninf_bot]; exact bot_le, ?_⟩
+    intro x hx
+    exact hc (read_subset_winSet hne hx)
+
+theorem foldWin_min_spec {g : Rat → Option α} {B : List Rat} {lo : Rat} {hi : Option Rat}
+    (hg : StepOn g B lo hi) (hne : leHi lo hi) :
+    ∃ v, foldWin pmin pinf g B lo hi = some v ∧ IsGLB (winSet g lo hi) v := by
+  refine ⟨_, foldWin_some hg hne, ?_, ?_⟩
+  · intro y hy
+    exact ((le_lminFrom_iff pinf _ _).1 le_rfl).2 y (winSet_subset_read hg hy)
+  · intro c hc
+    refine (le_lminFrom_iff pinf _ c).2 ⟨by rw [LawfulVal.pinf_top]; exact le_top, ?_⟩
+    intro x hx
+    exact hc (read_subset_winSet hne hx)
+
+theorem foldWin_max_isSome {g : Rat → Option α} {B : List Rat} {lo : Rat} {hi : Option Rat}
+    (hg : StepOn g B lo hi) (hne : leHi lo hi) : (foldWin pmax ninf g B lo hi).isSome = true := by
+  rw [foldWin_some hg hne]; rfl
+
+theorem foldWin_min_isSome {g : Rat → Option α} {B : List Rat} {lo : Rat} {hi : Option Rat}
+    (hg : StepOn g B lo hi) (hne : leHi lo hi) : (foldWin pmin pinf g B lo hi).isSome = true := by
+  rw [foldWin_some hg hne]; rfl
+
+/-- Two windows with the same set of values have the same supremum. -/
+theorem foldWin_max_eq_of_winSet_eq {g g' : Rat → Option α} {B B' : List Rat} {lo lo' : Rat}
+    {hi hi' : Option Rat} (hg : StepOn g B lo hi) (hne : leHi lo hi)
+    (hg' : StepOn g' B' lo' hi') (hne' : leHi lo' hi')
+    (h : winSet g lo hi = winSet g' lo' hi') :
+    foldWin pmax ninf g B lo hi = foldWin pmax ninf g' B' lo' hi' := by
+  obtain ⟨v, h1, h2⟩ := foldWin_max_spec hg hne
+  obtain ⟨v', h1', h2'⟩ := foldWin_max_spec hg' hne'
+  rw [h1, h1', IsLUB.unique h2 (h ▸ h2')]
+
+theorem foldWin_min_eq_of_winSet_eq {g g' : Rat → Option α} {B B' : List Rat} {lo lo' : Rat}
+    {hi hi' : Option Rat} (hg : StepOn g B lo hi) (hne : leHi lo hi)
+    (hg' : StepOn g' B' lo' hi') (hne' : leHi lo' hi')
+    (h : winSet g lo hi = winSet g' lo' hi') :
+    foldWin pmin pinf g B lo hi = foldWin pmin pinf g' B' lo' hi' := by
+  obtain ⟨v, h1, h2⟩ := foldWin_min_spec hg hne
+  obtain ⟨v', h1', h2'⟩ := foldWin_min_spec hg' hne'
+  rw [h1, h1', IsGLB.unique h2 (h ▸ h2')]
+
+omit [LawfulVal α] in
+theorem winSet_congr {g g' : Rat → Option α} {lo : Rat} {hi : Option Rat}
+    (h : ∀ s, lo ≤ s → leHi s hi → g s = g' s) : winSet g lo hi = winSet g' lo hi := by
+  ext y
+  constructor
+  · rintro ⟨s, h1, h2, h3⟩; exact ⟨s, h1, h2, by rw [← h s h1 h2]; exact h3⟩
+  · rintro ⟨s, h1, h2, h3⟩; exact ⟨s, h1, h2, by rw [h s h1 h2]; exact h3⟩
+
+omit [LawfulVal α] in
+/-- Moving both ends of a bounded window to the right without crossing a candidate does not
+    change the set of values. -/
+theorem winSet_shift_some {g : Rat → Option α} {B : List Rat} {lo lo' h h' : Rat}
+    (hg : StepOn g B lo (some h')) (h1 : lo ≤ lo') (h2 : lo ≤ h) (h3 : lo' ≤ h') (h4 : h ≤ h')
+    (hlo : ∀ b ∈ B, ¬ (lo < b ∧ b ≤ lo')) (hhi : ∀ b ∈ B, ¬ (h < b ∧ b ≤ h')) :
+    winSet g lo (some h) = winSet g lo' (some h') := by
+  ext y
+  constructor
+  · rintro ⟨s, k1, k2, k3⟩
+    by_cases hs : lo' ≤ s
+    · exact ⟨s, hs, le_trans k2 h4, k3⟩
+    · have hs' : s < lo' := not_le.1 hs
+      refine ⟨lo', le_rfl, h3, ?_⟩
+      rw [hg.2 s lo' k1 (le_of_lt hs') h3 (fun b hb hh => hlo b hb ⟨lt_of_le_of_lt k1 hh.1, hh.2⟩)]
+      exact k3
+  · rintro ⟨s, k1, k2, k3⟩
+    by_cases hs : s ≤ h
+    · exact ⟨s, le_trans h1 k1, hs, k3⟩
+    · have hs' : h < s := not_le.1 hs
+      refine ⟨h, h2, le_rfl, ?_⟩
+      rw [← hg.2 h s h2 (le_of_lt hs') k2 (fun b hb hh => hhi b hb ⟨hh.1, le_trans hh.2 k2⟩)]
+      exact k3
+
+omit [LawfulVal α] in
+theorem winSet_shift_none {g : Rat → Option α} {B : List Rat} {lo lo' : Rat}
+    (hg : StepOn g B lo none) (h1 : lo ≤ lo')
+    (hlo : ∀ b ∈ B, ¬ (lo < b ∧ b ≤ lo')) :
+    winSet g lo none = winSet g lo' none := by
+  ext y
+  constructor
+  · rintro ⟨s, k1, k2, k3⟩
+    by_cases hs : lo' ≤ s
+    · exact ⟨s, hs, trivial, k3⟩
+    · have hs' : s < lo' := not_le.1 hs
+      refine ⟨lo', le_rfl, trivial, ?_⟩
+      rw [hg.2 s lo' k1 (le_of_lt hs') trivial (fun b hb hh => hlo b hb ⟨lt_of_le_of_lt k1 hh.1, hh.2⟩)]
+      exact k3
+  · rintro ⟨s, k1, k2, k3⟩
+    exact ⟨s, le_trans h1 k1, trivial, k3⟩
+
+/-! ### `dom` -/
+
+theorem foldl_max_max (l : List Rat) (a b : Rat) : l.foldl max (max a b) = max a (l.foldl max b) := by
+  induction l generalizing b with
+  | nil => rfl
+  | cons x xs ih => simp only [List.foldl_cons]; rw [max_assoc, ih]
+
+theorem foldl_max_ge (l : List Rat) (a : Rat) : a ≤ l.foldl max a := by
+  induction l generalizing a with
+  | nil => exact le_rfl
+  | cons x xs ih => exact le_trans (le_max_left _ _) (ih _)
+
+omit [Val α] in
+theorem dom_nonneg (w : DEnv α) (φ : F α) : 0 ≤ dom w φ := foldl_max_ge _ _
+
+omit [Val α] in
+theorem dom_of_vars_eq (w : DEnv α) {φ ψ : F α} (h : φ.vars = ψ.vars) : dom w φ = dom w ψ := by
+  unfold dom; rw [h]
+
+omit [Val α] in
+theorem dom_of_vars_append (w : DEnv α) {φ φ1 φ2 : F α} (h : φ.vars = φ1.vars ++ φ2.vars) :
+    dom w φ = max (dom w φ1) (dom w φ2) := by
+  unfold dom
+  rw [h, List.map_append, List.foldl_append]
+  have h0 := foldl_max_ge (φ1.vars.map (fun x => ((w.sig x).times.head?).getD 0)) 0
+  rw [← max_eq_left h0, foldl_max_max, max_eq_left h0]
+
+omit [Val α] in
+theorem dom_of_vars_nil (w : DEnv α) {φ : F α} (h : φ.vars = []) : dom w φ = 0 := by
+  unfold dom; rw [h]; rfl
+
+omit [Val α] in
+theorem dom_var (w : DEnv α) (x : String) :
+    dom w (.var x) = max 0 (((w.sig x).times.head?).getD 0) := rfl
+
+/-! ### `valAt` -/
+
+omit [Val α] [LawfulVal α] in
+theorem valAt_cons (τ : Rat) (v : α) (rest : DSig α) (t : Rat) :
+    DSig.valAt ((τ, v) :: rest) t = if t < τ then none else some ((DSig.valAt rest t).getD v) := by
+  by_cases h : t < τ
+  · simp only [DSig.valAt, if_pos h]
+  · simp only [DSig.valAt, if_neg h]
+    cases DSig.valAt rest t <;> rfl
+
+omit [Val α] [LawfulVal α] in
+theorem valAt_step (s : DSig α) (hne : s ≠ []) (hs : s.times.Pairwise (· < ·)) :
+    (∀ t, t < s.times.head?.getD 0 → s.valAt t = none) ∧
+      StepOn s.valAt s.times (s.times.head?.getD 0) none := by
+  induction s with
+  | nil => exact absurd rfl hne
+  | cons p rest ih =>
+    obtain ⟨τ, v⟩ := p
+    cases rest with
+    | nil =>
+      refine ⟨fun t ht => ?_, fun t ht _ => ?_, fun t t' h1 h2 _ _ => ?_⟩
+      · simp only [DSig.times, List.map_cons, List.head?_cons, Option.getD_some] at ht
+        rw [valAt_cons, if_pos ht]
+      · simp only [DSig.times, List.map_cons, List.head?_cons, Option.getD_some] at ht
+        rw [valAt_cons, if_neg (not_lt.2 ht)]; rfl
+      · simp only [DSig.times, List.map_cons, List.head?_cons, Option.getD_some] at h1
+        rw [valAt_cons τ v _ t', valAt_cons τ v _ t, if_neg (not_lt.2 h1),
+          if_neg (not_lt.2 (le_trans h1 h2))]
+        rfl
+    | cons p' rest' =>
+      obtain ⟨τ', v'⟩ := p'
+      have hs' : (DSig.times ((τ', v') :: rest')).Pairwise (· < ·) := by
+        simp only [DSig.times, List.map_cons, List.pairwise_cons] at hs ⊢
+        exact hs.2
+      have hlt : τ < τ' := by
+        simp only [DSig.times, List.map_cons, List.pairwise_cons] at hs
+        exact hs.1 τ' (List.mem_cons_self ..)
+      obtain ⟨A, B1, B2⟩ := ih (by simp) hs'
+      simp only [DSig.times, List.map_cons, List.head?_cons, Option.getD_some] at A B1 B2 ⊢
+      refine ⟨fun t ht => ?_, fun t ht _ => ?_, fun t t' h1 h2 _ h4 => ?_⟩
+      · rw [valAt_cons, if_pos ht]
+      · rw [valAt_cons, if_neg (not_lt.2 ht)]; rfl
+      · rw [valAt_cons τ v _ t', valAt_cons τ v _ t, if_neg (not_lt.2 h1),
+          if_neg (not_lt.2 (le_trans h1 h2))]
+        congr 2
+        by_cases hc : t' < τ'
+        · rw [A t' hc, A t (lt_of_le_of_lt h2 hc)]
+        · have hc' : τ' ≤ t' := not_lt.1 hc
+          have hc2 : τ' ≤ t := by
+            by_contra hn
+            exact h4 τ' (by simp) ⟨not_le.1 hn, hc'⟩
+          exact B2 t t' hc2 h2 trivial (fun b hb => h4 b (List.mem_cons_of_mem _ hb))
 
 end Rtamt.Dense
